@@ -766,6 +766,46 @@ pub fn run(tier: &str) -> Result<Report, String> {
             }
         }
     }
+    // a list with a formula that PARSES but cannot be validated against the network (unknown proposition, free variable) between
+    // valid ones: either an error and no new archive, or - if the analysis reports success - an archive in which entry formula-i is
+    // the result of line i of the archived formulae.txt for every line
+    for b in nets.iter().filter(|b| which.contains(&b.name.as_str())) {
+        for bad_line in ["AG (zz_unknown | a)", "AX {x}", "3{x}: @{y}: a"] {
+            for pos in 0..3usize {
+                let mut l: Vec<String> = vec!["EF a".into(), "AG ~a".into()];
+                l.insert(pos, bad_line.to_string());
+                rep.evaluations += 1;
+                let dir = tempfile::tempdir().map_err(|e| e.to_string())?;
+                let path = dir.path().join("out.zip");
+                let r = guarded(AssertUnwindSafe(|| analyse_formulae(&b.bn, l.clone(), PrintOptions::NoPrint, Some(path.to_str().unwrap().to_string()), None)));
+                let what = match r {
+                    Err(p) => Some(format!("panic: {p}")),
+                    Ok(Err(_)) => {
+                        if path.exists() && cli::read_zip(&path).map(|e| e.iter().any(|(n, _)| n.starts_with("formula-"))).unwrap_or(false) {
+                            Some("the analysis fails but leaves a result archive with result entries behind".to_string())
+                        } else {
+                            None
+                        }
+                    }
+                    Ok(Ok(())) => match cli::read_zip(&path) {
+                        Err(e) => Some(format!("the analysis reports success but the archive is unreadable: {e}")),
+                        Ok(entries) => {
+                            let lines: Vec<String> = entries.iter().find(|(n, _)| n == "formulae.txt").map(|(_, t)| t.lines().map(|s| s.to_string()).collect()).unwrap_or_default();
+                            let n_sets = entries.iter().filter(|(n, _)| n.starts_with("formula-")).count();
+                            if n_sets != lines.len() {
+                                Some(format!("the analysis reports success for a list with a formula that cannot be validated: {} result entries for {} archived formula lines", n_sets, lines.len()))
+                            } else {
+                                None
+                            }
+                        }
+                    },
+                };
+                if let Some(w) = what {
+                    rep.violations.push(Violation { case: json!({"kind": "none"}), what: format!("analyse_formulae on {} for {l:?}: {w}", b.name), size: 5 });
+                }
+            }
+        }
+    }
     // initial archives (model + formula list only)
     for b in nets.iter().filter(|b| which.contains(&b.name.as_str())) {
         for l in &alists {
